@@ -920,6 +920,17 @@ fn format_if_expression(ctx: &Context, if_expression: &IfExpression, shape: Shap
     }
 }
 
+/// Whether the first token of the expression is the opening brace of a table constructor
+#[cfg(feature = "luau")]
+fn starts_with_table_constructor(expression: &Expression) -> bool {
+    match expression {
+        Expression::TableConstructor(_) => true,
+        Expression::BinaryOperator { lhs, .. } => starts_with_table_constructor(lhs),
+        Expression::TypeAssertion { expression, .. } => starts_with_table_constructor(expression),
+        _ => false,
+    }
+}
+
 #[cfg(feature = "luau")]
 fn format_interpolated_string(
     ctx: &Context,
@@ -936,9 +947,9 @@ fn format_interpolated_string(
         let mut expression = format_expression(ctx, &segment.expression, shape);
         shape = shape.take_last_line(&expression);
 
-        // If expression is a table constructor, then ensure a space is added beforehand
+        // If expression starts with a table constructor, then ensure a space is added beforehand
         // since `{{` syntax is not permitted
-        if let Expression::TableConstructor { .. } = expression {
+        if starts_with_table_constructor(&expression) {
             expression =
                 expression.update_leading_trivia(FormatTriviaType::Append(vec![Token::new(
                     TokenType::spaces(1),
